@@ -1,6 +1,6 @@
 (* C08 obligations.  Statements only; proofs are in SacnTrack/SacnProofs/SacnThms/ArtProofs. *)
 From OlaBase Require Import Bytes.
-From C08 Require Import Gen Model Spec SacnThms TextSpec TextCheck ShadowThm ArtDistinct ArtStep Final.
+From C08 Require Import Gen Model Spec SacnThms TextSpec TextCheck ShadowThm ArtDistinct ArtStep NodeProofs Final.
 Local Open Scope N_scope.
 
 (* the property's literal numbers are the constants of the checked-out tree *)
@@ -232,6 +232,31 @@ Theorem c08_artnet_refines_text :
 Proof. exact c08_artnet_refines_text_l. Qed.
 Print Assumptions c08_artnet_refines_text.
 
+(* Art-Net, node level: the node has four output ports, each with its own address, merge mode and
+   enabled flag, all changeable in mid-history (SetOutputPortUniverse, DisableOutputPort, SetMergeMode,
+   SetSubnetAddress, SetNetAddress).  After every history of such operations and ArtDmx packets
+   (non-decreasing times, no 0.0.0.0 sender) the next ArtDmx packet is offered to EVERY port
+   independently: for each port the data callback runs iff that port is enabled and its own text-level
+   view (its address, its mode, the senders IT heard within 10 s) lets the packet in, and that port's
+   buffer then equals its text-level HTP/LTP output; a disabled port is untouched.  In particular two
+   enabled ports with the same address both receive the packet, each merging in its own mode. *)
+Theorem c08_artnet_node :
+  forall (h : list (N * nop)) (now : N) (k : apkt),
+    nguards 0 h -> nlast 0 h <= now -> k_addr k <> 0 ->
+    let nd := fst (nrun init_node init_ghosts h) in
+    let Gs := snd (nrun init_node init_ghosts h) in
+    fst (node_op now nd (NData k)) =
+      mkN (n_net nd) (map (fun p => fst (port_data (n_net nd) now p k)) (n_ports nd)) /\
+    snd (node_op now nd (NData k)) = map (fun p => snd (port_data (n_net nd) now p k)) (n_ports nd) /\
+    Forall2 (fun p G =>
+       let r := port_data (n_net nd) now p k in
+       let t := ntext_data (n_net nd) now p G k in
+       (snd t = None <-> snd r = false) /\
+       (forall out, snd t = Some out -> ap_buf (np_port (fst r)) = out) /\
+       (np_en p = false -> fst r = p)) (n_ports nd) Gs.
+Proof. exact c08_artnet_node_l. Qed.
+Print Assumptions c08_artnet_node.
+
 (* hypotheses are satisfiable / the theorems are not vacuous *)
 Definition ex_pkt (cid prio seq : N) (term : bool) (slots : list N) : pkt :=
   mkPkt 2 cid prio seq 1 false term false 161
@@ -333,3 +358,13 @@ Example ex_exact_stale :
             (2500101, true, ex_pkt 2 100 4 false [1; 1])] in
   cguards ex_cfg 0 init_cst h /\ cverdicts ex_cfg init_cst h = [0; 0; 2].
 Proof. vm_compute. repeat split; try discriminate; reflexivity. Qed.
+
+(* two output ports on one address, one HTP one LTP: both get every packet, each merges in its mode *)
+Example ex_node_two_ports :
+  let h := [(0, NNet 4); (0, NSubnet 2); (0, NEnable 0%nat 3); (0, NEnable 2%nat 3); (0, NMode 2%nat true);
+            (100, NData (mkK 1 4 35 2 [1; 9])); (200, NData (mkK 2 4 35 2 [5; 2]))] in
+  let nd := fst (nrun init_node init_ghosts h) in
+  nguards 0 h /\
+  map (fun p => ap_buf (np_port p)) (n_ports nd) = [[5; 9]; []; [5; 2]; []] /\
+  snd (node_op 300 nd (NData (mkK 1 4 35 2 [0; 0]))) = [true; false; true; false].
+Proof. vm_compute. repeat split; discriminate. Qed.
